@@ -225,6 +225,7 @@ func (x *Exec) call(st *State, call *ast.CallExpr) []Term {
 
 func (x *Exec) callInner(st *State, call *ast.CallExpr) []Term {
 	c := x.c()
+	x.curPos = call.Pos()
 	// conversion
 	if tv, ok := x.info.Types[call.Fun]; ok && tv.IsType() {
 		return []Term{x.convert(st, call)}
